@@ -3,6 +3,7 @@ package main
 import (
 	"bytes"
 	"errors"
+	"io"
 	"time"
 
 	sse "github.com/tmaxmax/go-sse"
@@ -22,6 +23,16 @@ type faultWriter struct {
 	script []val.V
 	acc    []byte
 }
+
+// byteFaultWriter additionally offers WriteByte and WriteString (like *bufio.Writer, *bytes.Buffer): an encoder that
+// takes such a shortcut must account for its bytes exactly as for Write.
+type byteFaultWriter struct{ *faultWriter }
+
+func (w byteFaultWriter) WriteByte(c byte) error {
+	_, err := w.faultWriter.Write([]byte{c})
+	return err
+}
+func (w byteFaultWriter) WriteString(s string) (int, error) { return w.faultWriter.Write([]byte(s)) }
 
 func (w *faultWriter) Write(p []byte) (int, error) {
 	if len(w.script) == 0 {
@@ -118,7 +129,11 @@ func execMessage(in val.V) val.V {
 				return val.L()
 			case 5:
 				w := &faultWriter{script: op.At(2).Items()}
-				n, err := m.WriteTo(w)
+				var dst io.Writer = w
+				if len(val.String(op))%2 == 0 {
+					dst = byteFaultWriter{w} // a deterministic half of the cases: a writer with WriteByte/WriteString
+				}
+				n, err := m.WriteTo(dst)
 				return val.L(val.N(uint64(n)), val.N(errCode(err)), val.B(w.acc))
 			case 6:
 				b, _ := m.MarshalText()
@@ -159,7 +174,7 @@ func execMessage(in val.V) val.V {
 	return val.List(outs)
 }
 
-var textPieces = []string{"a", "bc", "", " ", ":", "\n", "\r", "\r\n", "\n\n", "\r\r\n", "id: x", "data: y", "event: z", "retry: 5", "\x00", "\xef\xbb\xbf", "é", "\xff", ": c", "data", "  x"}
+var textPieces = []string{"\x0b", "\x0c", "\x1e", "\u0085", "\u2028", "\t", "a", "bc", "", " ", ":", "\n", "\r", "\r\n", "\n\n", "\r\r\n", "id: x", "data: y", "event: z", "retry: 5", "\x00", "\xef\xbb\xbf", "é", "\xff", ": c", "data", "  x"}
 
 func genText(r *rng.R) string {
 	n := r.Intn(6)
